@@ -50,7 +50,7 @@ impl Property for C07 {
     type Case = Case;
     const ID: &'static str = "C07";
     fn rule() -> &'static str {
-        "2D: closed reference curves with enough features to fix 3 degrees of freedom (star polygons, L-shapes, rectangles with a notch; size 1e-1..1e2, a quarter of them 1e-7..1e-1 with the pose scaled alike; any pose) with 12-200 sample points exactly on the curve; 3D: boxes, skewed prisms and octahedra in any pose with 200-800 points from the harness's own area-weighted sampler. Recovery family: displacement about the shape centroid of up to 3 deg / 2 % of the size (2D, at least 40 points, a sample set whose normal matrix is well conditioned, at most a tenth of the samples matched to a wrong edge or to a corner at the start), 5 deg / 3 % (3D), starting from the identity or a second small perturbation, both distance modes: the returned transform composed with the displacement must be the identity to 1e-4 (angle in radians, shift relative to the size). Honesty family: displacements up to 40 deg / 30 %: whenever the solver reports success the i-th residual must equal the mode-specific distance recomputed by exhaustive scan from the returned transform alone, the average must match, and the sum of squares must not exceed its value at the start. Already-aligned family (4 %): the samples are the reference's own vertices, zero displacement, identity start - every residual is exactly zero at the start and the identity must come back. Non-trivial: rotation > 1 deg and translation > 1 % (recovery); success with a final sum of squares > 1e-6 size^2 (honesty). Distinct = distinct canonical JSON."
+        "2D: closed reference curves with enough features to fix 3 degrees of freedom (star polygons, L-shapes, rectangles with a notch; size 1e-1..1e2, a quarter of them 1e-7..1e-1 with the pose scaled alike; any pose) with 12-200 sample points exactly on the curve; 3D: boxes, skewed prisms and octahedra in any pose with 200-800 points from the harness's own area-weighted sampler. Recovery family: displacement about the shape centroid of up to 3 deg / 2 % of the size (2D, at least 40 points, a sample set at least half of whose points are distinct and whose normal matrix is well conditioned, at most a tenth of the samples matched to a wrong edge or to a corner at the start), 5 deg / 3 % (3D), starting from the identity or a second small perturbation, both distance modes: the returned transform composed with the displacement must be the identity to 1e-4 (angle in radians, shift relative to the size). Honesty family: displacements up to 40 deg / 30 %: whenever the solver reports success the i-th residual must equal the mode-specific distance recomputed by exhaustive scan from the returned transform alone, the average must match, and the sum of squares must not exceed its value at the start. Already-aligned family (4 %): the samples are the reference's own vertices, zero displacement, identity start - every residual is exactly zero at the start and the identity must come back. Non-trivial: rotation > 1 deg and translation > 1 % (recovery); success with a final sum of squares > 1e-6 size^2 (honesty). Distinct = distinct canonical JSON."
     }
     fn cases(t: Tier) -> u32 {
         t.pick(80_000, 1_000_000)
@@ -144,9 +144,17 @@ fn align2(shape: &Shape2, scale: f64, pose: &Iso2D, fracs: &[f64], angle_deg: f6
         if std::env::var("VERIF_DEBUG").is_ok() {
             eprintln!("C07 align2: normal-matrix eigenvalues / n = {:?}", ev / samples.len() as f64);
         }
-        // uniformly drawn fractions give 0.008 at the very least (median 0.036); sets that byte-level mutation collapses
+        // uniformly drawn fractions give 0.008 at the very least (1 % quantile 0.013, median 0.036); sets that byte-level mutation collapses
         // to a handful of distinct positions sit below that and do stall in local minima
-        if ev.min() < 8e-3 * samples.len() as f64 {
+        // ... as do sets that are mostly copies of a few positions (a weighted handful of points, whatever their number):
+        // at least half of the samples must be distinct positions
+        let mut fr: Vec<f64> = fracs.iter().map(|f| f * model.len()).collect();
+        fr.sort_by(|a, b| a.partial_cmp(b).unwrap());
+        let distinct = 1 + fr.windows(2).filter(|w| w[1] - w[0] > 1e-6 * model.len()).count();
+        if 2 * distinct < samples.len() {
+            return Verdict::Discard("fewer than half of the samples are distinct positions");
+        }
+        if ev.min() < 1e-2 * samples.len() as f64 {
             return Verdict::Discard("sample set does not fix all degrees of freedom");
         }
     }
